@@ -30,9 +30,14 @@ RULE = ("(a) upstream.VerifMsgTruncated on all 256 values of byte 2 at lengths 3
         "(e) k = 1..4 (thorough 1..6) queries at the same time, all TC, held by the TCP server until k connections carry one each, "
         "so k fallback connections go idle; then one more TC query while the server reads a query on an old connection and "
         "closes it but answers new connections (oracle: for k <= reuse maxRetry + 1 the caller gets the TCP reply from one new "
-        "connection; the server only ever reads the caller's query). "
+        "connection; the server only ever reads the caller's query); "
+        "(f) after 0-2 ordinary exchanges, a query whose first 1-2 datagrams the UDP server ignores; it answers the transport's "
+        "re-send (1 s later each) under the id that datagram carries, flag byte random with TC set or clear, caller ids 4..65535 "
+        "(oracle: same outcome as for an answered first datagram; observed ids/checksums of all datagrams equal the first). "
+        "Every exchange the driver starts has a deadline (6 s, 400 ms once three exchanges have run into it), so a lost reply is "
+        "an observed error, never a hang. "
         "A case is non-trivial when TC is set or the flag byte is not 0x80/0x81, or it has stray datagrams / a silent UDP "
-        "server / fewer than 4 bytes / DialAddr set / delayed replies / an abandoned retry / dead idle connections; distinct = distinct Gallina literal (dial cases contain the ephemeral ports)")
+        "server / fewer than 4 bytes / DialAddr set / delayed replies / an abandoned retry / dead idle connections / an ignored first datagram; distinct = distinct Gallina literal (dial cases contain the ephemeral ports)")
 ASSUMPTIONS = [
     "loopback UDP delivers the datagrams of one sender socket in order, and a bound non-listening TCP socket refuses connections (Linux)",
     "the TCP transport is used for one query at a time (sessions are sequential); concurrent fallbacks are C03/C15 territory",
@@ -59,7 +64,8 @@ LEVEL_TEXT = ("Theorems in coq/Properties/C17.v: for every header and body msgTr
               "connection deadline) bound the retry (c17_late_tcp_reply_is_returned); over all sequences of waiting / abandoned retries and "
               "late replies no retry receives another query's reply (c17_no_crossed_replies); with k <= maxRetry + 1 idle connections that die "
               "mid-exchange the retry loop (Model/Retry.v loop reuse_cfg, shape and constant regenerated from reuse.go) still reaches a fresh "
-              "connection and the caller gets the TCP reply (c17_stale_conns_then_fresh, c17_fallback_over_stale_conns). The model is run inside Coq on every case the Go driver observed on the "
+              "connection and the caller gets the TCP reply (c17_stale_conns_then_fresh, c17_fallback_over_stale_conns); every datagram of an exchange, first or re-sent, is the same bytes "
+              "under the same wire id, so an answer to any of them is taken (c17_resend_same_datagram, c17_answer_to_any_send_accepted). The model is run inside Coq on every case the Go driver observed on the "
               "real code (Judge.C17.agree) and the property's own reading of the observation is checked (Judge.C17.spec).")
 LEVEL_NOTE = ("Trusted: Coq kernel + vm_compute; hand-written model tied to the code by the differential run and Gen/Constants.v; "
               "loopback ordering; miekg Pack as reference bit layout. Sequential use of one upstream only. No axioms.")
